@@ -671,7 +671,8 @@ def iterfit(xdata, ydata, invvar=None, upper=5, lower=5, x2=None,
     while (error != 0 or not qdone) and iiter <= maxiter:
         goodbk = sset.mask.nonzero()[0]
         if maskwork.sum() <= 1 or not sset.mask.any():
-            sset.coeff = 0
+            # IDL's ``sset.coeff = 0`` zeroes the array, it does not replace it.
+            sset.coeff[...] = 0
             iiter = maxiter + 1
         else:
             if requiren is not None:
